@@ -13,7 +13,9 @@ namespace Model.Tracer
 /-- what is observed after one `ode.step()` of the loop body -/
 structure Step where
   t : Rat                -- ode.t after the step (and after the optional re-minimisation)
-  eigPos : Bool          -- spinodalEvent(t, y) > 0  (smallest Hessian eigenvalue positive; `true` if spinodal=False)
+  eigPos : Bool          -- the phase still exists after the step: spinodalEvent(t, y) > 0 (smallest Hessian eigenvalue positive; `true` if
+                         -- spinodal=False) AND, with paranoid=True, the re-solved minimum stayed on the branch (freeEnergy.py, fix 1a7a87a:
+                         -- otherwise the loop breaks before the eigenvalue is even evaluated)
   tiny : Bool            -- ode.step_size < 1e-16·T0
   deriving Repr, DecidableEq
 
